@@ -9,6 +9,7 @@ over their whole (valid) type; everything else is `bounded` with the bound state
 """
 import concurrent.futures as cf
 import json
+import threading
 import os
 import re
 import shutil
@@ -23,16 +24,22 @@ CMD_DESCR = ("CARGO_NET_OFFLINE=true cargo kani -p <crate> -Z function-contracts
              "(cwd=/repo, --target-dir /verif/build/kani/<crate>)")
 PKG = {"rustemo": "rustemo", "compiler": "rustemo-compiler"}
 DEFAULT_TIMEOUT = int(os.environ.get("VERIF_KANI_TIMEOUT", "1500"))
-MAX_JOBS = int(os.environ.get("VERIF_KANI_JOBS", "4"))
+MAX_JOBS = int(os.environ.get("VERIF_KANI_JOBS", "3"))
 
 HARNESS_RE = re.compile(r"^(?:Thread \d+: )?Checking harness ([\w:]+)\.\.\.", re.M)
 
 
 def pregen():
     """Generate the block-lift sources needed by cfg(kani) includes (C05, C17). Raises ExtractError."""
+    import glob
     import lift
     os.makedirs(GEN, exist_ok=True)
     lift.generate_all(REPO, GEN)
+    for f in glob.glob(os.path.join(VERIF, "units", "kx", "*", "*.rs")):
+        crate, mod = os.path.basename(os.path.dirname(f)), os.path.basename(f)[:-3]
+        pb = os.path.join(GEN, f"playback_{crate}_{mod}.rs")
+        if not os.path.exists(pb):
+            open(pb, "w").write("")
 
 
 def split_per_harness(out):
@@ -110,19 +117,66 @@ def cargo_kani(crate, harnesses, extra=None, timeout=DEFAULT_TIMEOUT, jobs=None)
     cmd += extra or []
     t0 = time.time()
 
-    def limit():
-        # a runaway CBMC (SmallVec/Arc/String drop glue) can take 50+ GB: cap each process, it then fails alone as "undecided"
-        import resource
-        cap = int(os.environ.get("VERIF_KANI_MEM_GB", "13")) * 1024 ** 3
-        resource.setrlimit(resource.RLIMIT_AS, (cap, cap))
+    # A runaway CBMC (recursive drop glue, symbolic Vec::retain) can take 50+ GB.  RLIMIT_AS proved too blunt (CBMC's
+    # address space is several times its resident set and checks then end in "Status: ERROR"), so a watchdog thread kills
+    # any cbmc descendant of this invocation whose RESIDENT set exceeds the cap; that harness then has no verdict (exit 2).
+    cap_kb = int(os.environ.get("VERIF_KANI_MEM_GB", "20")) * 1024 * 1024
+    stop = threading.Event()
+    killed = []
+
+    def watchdog(root_pid_holder):
+        while not stop.wait(5):
+            try:
+                root = root_pid_holder[0]
+                if root is None:
+                    continue
+                # all descendants of root
+                procs = {}
+                for d in os.listdir("/proc"):
+                    if d.isdigit():
+                        try:
+                            st = open(f"/proc/{d}/stat").read().split(") ")[-1].split()
+                            procs[int(d)] = int(st[1])
+                        except Exception:
+                            pass
+                desc, frontier = set(), {root}
+                while frontier:
+                    nxt = {p for p, pp in procs.items() if pp in frontier and p not in desc}
+                    desc |= nxt
+                    frontier = nxt
+                for pid in desc:
+                    try:
+                        if b"cbmc" not in open(f"/proc/{pid}/cmdline", "rb").read()[:64]:
+                            continue
+                        rss = int(re.search(r"VmRSS:\s+(\d+)", open(f"/proc/{pid}/status").read()).group(1))
+                        if rss > cap_kb:
+                            os.kill(pid, 9)
+                            killed.append((pid, rss))
+                    except Exception:
+                        pass
+            except Exception:
+                pass
+
+    holder = [None]
+    th = threading.Thread(target=watchdog, args=(holder,), daemon=True)
+    th.start()
+    proc = subprocess.Popen(cmd, cwd=REPO, env=env, stdout=subprocess.PIPE, stderr=subprocess.PIPE, text=True, start_new_session=True)
+    holder[0] = proc.pid
     try:
-        p = subprocess.run(cmd, cwd=REPO, env=env, capture_output=True, text=True, timeout=timeout, preexec_fn=limit)
-        out, rc = p.stdout + "\n" + p.stderr, p.returncode
-    except subprocess.TimeoutExpired as e:
-        so = e.stdout.decode() if isinstance(e.stdout, bytes) else (e.stdout or "")
-        se = e.stderr.decode() if isinstance(e.stderr, bytes) else (e.stderr or "")
-        out, rc = so + "\n" + se + "\nKX-TIMEOUT", 124
-        subprocess.run(["pkill", "-f", "cbmc"], capture_output=True)
+        so, se = proc.communicate(timeout=timeout)
+        out, rc = so + "\n" + se, proc.returncode
+    except subprocess.TimeoutExpired:
+        # kill the whole process group of this invocation only (never a global pkill)
+        try:
+            os.killpg(proc.pid, 9)
+        except Exception:
+            pass
+        so, se = proc.communicate()
+        out, rc = (so or "") + "\n" + (se or "") + "\nKX-TIMEOUT", 124
+    finally:
+        stop.set()
+    if killed:
+        out += "\nKX-MEMORY-CAP: killed cbmc " + ", ".join(f"pid {p} at {r // 1024} MB" for p, r in killed) + " (out of memory)"
     return {"cmd": " ".join(cmd), "rc": rc, "out": out, "wall_s": time.time() - t0}
 
 
@@ -217,24 +271,35 @@ def run_twin(twin):
 
 
 def run_concrete(ct):
-    """Replay Kani's concrete values against the real code with `cargo kani playback`."""
+    """Replay Kani's concrete values against the real code with `cargo kani playback` (native execution of the harness)."""
+    import glob
     crate, h = ct["crate"], ct["harness"]
-    os.makedirs(GEN, exist_ok=True)
-    path = os.path.join(GEN, f"playback_{crate}.rs")
-    open(path, "w").write(ct["test"])
+    pregen()
+    target = None
+    for f in glob.glob(os.path.join(VERIF, "units", "kx", crate, "*.rs")):
+        if re.search(r"\bfn " + re.escape(h) + r"\b", open(f).read()):
+            target = os.path.join(GEN, f"playback_{crate}_{os.path.basename(f)[:-3]}.rs")
+    if target is None:
+        print(f"replay: harness {h} not found in units/kx/{crate}")
+        return 2
+    open(target, "w").write(ct["test"])
     env = dict(os.environ)
     env["CARGO_NET_OFFLINE"] = "true"
     env.pop("RUSTUP_TOOLCHAIN", None)
     m = re.search(r"fn (kani_concrete_playback_\w+)", ct["test"])
     cmd = ["cargo", "kani", "playback", "-Z", "concrete-playback", "-p", PKG[crate], "--target-dir",
            os.path.join(TARGET, crate + "_playback"), "--", m.group(1) if m else h]
-    p = subprocess.run(cmd, cwd=REPO, env=env, capture_output=True, text=True)
-    print(p.stdout[-4000:])
-    print(p.stderr[-4000:])
-    open(path, "w").write("")
-    failed = ("panicked" in p.stdout + p.stderr) or ("test result: FAILED" in p.stdout)
-    print("replay: the real code FAILS on Kani's values" if failed else "replay: no failure reproduced")
-    return 1 if failed else 0
+    try:
+        p = subprocess.run(cmd, cwd=REPO, env=env, capture_output=True, text=True, timeout=1800)
+    finally:
+        open(target, "w").write("")
+    out = p.stdout + p.stderr
+    print(out[-6000:])
+    failed = ("panicked at" in out) or ("test result: FAILED" in out)
+    passed = "test result: ok" in out
+    print("replay: the real code FAILS on Kani's values" if failed else
+          ("replay: no failure reproduced" if passed else "replay: could not run the playback test"))
+    return 1 if failed else (0 if passed else 2)
 
 
 if __name__ == "__main__":
